@@ -59,6 +59,7 @@ theorem consistent_step_partial (op : Op R) (flt : Option Addr) (s : State R)
   | setNode n c => exact pres_setNode n c true flt { st := s } h
   | addNode n c => exact (pres_addNode n c flt { st := s } ⟨h, hargs⟩).1
   | removeNode n => exact pres_removeNode n flt { st := s } h
+  | nodeResource n fix => exact pres_nodeResource n fix flt { st := s } h
 
 /-- a history is admissible: every operation's arguments are fine in the state it runs in and no
 excluded fault is used -/
@@ -95,6 +96,7 @@ the node's pod is not held):
 | realloc | the whole transaction | pod lock |
 | create | condition step (all allocations); each give-back of the rollback | pod locks of all candidate nodes; pod lock per node |
 | set-node, remove-node | the whole transaction (capacity / record only) | pod lock |
+| node-resource check / fix | list records, compare, rewrite usage | pod lock |
 | replace | none (the new workload inherits the resources) | workload lock only |
 | add-node | creates a record nobody else can address yet | none |
 
